@@ -681,12 +681,65 @@ async fn random(args: &Args) {
     println!("{s}");
 }
 
+/// `c05 deep --seed S --trace t.ndjson`: books of more than a thousand levels per side (a venue's full depth) in
+/// mode direct: a snapshot of ~1040 levels per side, then updates that insert new prices behind the worst level,
+/// between levels and in front of the best one, replace and delete levels - also after the best levels have been
+/// traded away. Validated by spec/Trace_OrderBook_deep.tla: however deep the book, it is the price -> amount map.
+async fn deep(args: &Args) {
+    let mut trace = Out::create(args.req("trace"));
+    let mut rng = rng(args.u64("seed", 1));
+    let sc = Scale::UNIT;
+    let mut lines = 0usize;
+    for seg in 0..2 {
+        let mut sut = Sut::new("direct", "single");
+        // bids 101..=1250, asks 1301..=2450, without the multiples of 10 (kept free for later inserts), shuffled
+        let mut ib: Vec<Value> = (101..=1250).filter(|p| p % 10 != 0).map(|p| json!({"p": p, "a": rng.random_range(1..10)})).collect();
+        let mut ia: Vec<Value> = (1301..=2450).filter(|p| p % 10 != 0).map(|p| json!({"p": p, "a": rng.random_range(1..10)})).collect();
+        ib.shuffle(&mut rng);
+        ia.shuffle(&mut rng);
+        let (ib, ia) = (Value::Array(ib), Value::Array(ia));
+        let r = sut.push(market_event(OURS, event_of("Reset", &ib, &ia, seg, sc))).await;
+        let mut dead = r.is_err();
+        trace.line(&ev_line("Reset", &ib, &ia, seg, match r { Ok(()) => project_trace(&sut.book(OURS), sc), Err(p) => json!({"panic": p}) }));
+        lines += 1;
+        for k in 0..12i64 {
+            if dead {
+                break;
+            }
+            // new prices: behind the worst level (bids < 101, asks > 2450), between levels (multiples of 10), in front of
+            // the best (bids 1251.., asks ..1300); deletes of the current best levels; replacements
+            let pre = sut.book(OURS);
+            let best_bid = pre.bids().levels().first().map(|l| l.price).unwrap_or_default();
+            let best_ask = pre.asks().levels().first().map(|l| l.price).unwrap_or_default();
+            let as_i = |d: Decimal| d.to_string().parse::<i64>().unwrap_or(0);
+            let bl = json!([
+                {"p": 100 - k * 3 - seg, "a": rng.random_range(1..10)},
+                {"p": 110 + 10 * rng.random_range(0..100i64), "a": rng.random_range(1..10)},
+                {"p": if k % 3 == 0 { 1251 + k } else { as_i(best_bid) }, "a": if k % 3 == 1 { 0 } else { rng.random_range(1..10) }},
+            ]);
+            let al = json!([
+                {"p": 2451 + k * 3 + seg, "a": rng.random_range(1..10)},
+                {"p": 1310 + 10 * rng.random_range(0..100i64), "a": rng.random_range(1..10)},
+                {"p": if k % 3 == 0 { 1300 - k } else { as_i(best_ask) }, "a": if k % 3 == 1 { 0 } else { rng.random_range(1..10) }},
+            ]);
+            let s = 100 + k;
+            let r = sut.push(market_event(OURS, event_of("Update", &bl, &al, s, sc))).await;
+            dead = r.is_err();
+            trace.line(&ev_line("Update", &bl, &al, s, observe(&sut, sc, &r)));
+            lines += 1;
+        }
+    }
+    trace.finish();
+    println!("{}", json!({"mode": "deep", "lines": lines}));
+}
+
 #[tokio::main(flavor = "current_thread")]
 async fn main() {
     let args = Args::parse();
     match args.cmd.as_str() {
         "run" => run(&args).await,
         "random" => random(&args).await,
+        "deep" => deep(&args).await,
         c => usage(&format!("unknown command {c}")),
     }
 }
